@@ -39,6 +39,9 @@ type Config struct {
 	// ForeignCoins > 0: every party also holds that many coins of a second denomination (ForeignDenom), which no
 	// marketplace transaction may move (denomination confusion, C01).
 	ForeignCoins int64 `json:"foreignCoins"`
+	// UpperParties: parties whose address is written in upper-case bech32 wherever a message names them (the same
+	// account; store keys of deployment and market records are built from the address STRING).
+	UpperParties []string `json:"upperParties"`
 }
 
 // ForeignDenom is the second denomination of worlds with ForeignCoins > 0.
@@ -208,6 +211,20 @@ func (w *World) Addr(name string) (sdk.AccAddress, error) {
 		return nil, fmt.Errorf("unknown party %q", name)
 	}
 	return a, nil
+}
+
+// Bech is the spelling of a party's address used in messages: upper case for the parties listed in UpperParties.
+func (w *World) Bech(name string) (string, error) {
+	a, err := w.Addr(name)
+	if err != nil {
+		return "", err
+	}
+	for _, u := range w.Cfg.UpperParties {
+		if u == name {
+			return strings.ToUpper(a.String()), nil
+		}
+	}
+	return a.String(), nil
 }
 
 // Name maps a bech32 address back to the party name.
